@@ -66,6 +66,18 @@ def run(tier, seed, replay=None):
     for cid in sorted(ok):
         if cid in run_.s2.removed:
             rep.count("compile_failed_" + run_.s2.removed[cid])
+            gd = [d for d in run_.s2.diags.get(cid, []) if d.get("file") == "gen"]
+            if gd:
+                # the emitted builder / default code is a template over each struct's members: it has to compile
+                msg = gd[0].get("rendered") or ""
+                # KF-C18-2 (= KF-C06-2 where the member's type has no Default): a member absent from a rendered default
+                # value is written `name: Default::default()`
+                cause = "absent_member_of_rendered_default_has_no_default_impl" if all(
+                    d.get("code") == "E0277" and "Default::default()," in (d.get("rendered") or "") and
+                    "the trait `Default` is not implemented" in (d.get("rendered") or "") for d in gd) else None
+                rep.violation("generated_code_does_not_compile", str(gd[0].get("code")),
+                              {"msg": msg[:700], "n_errors": len(gd), "cause": cause}, cause=cause,
+                              case={"id": cid, "settings": {"struct_builder": True}}, doc=docmap[cid][0])
             continue
         res = results[cid]
         doc, used = docmap[cid]
